@@ -1126,3 +1126,374 @@ def check_C03(tier):
 
 
 CHECKS["C03"] = check_C03
+
+
+def entry_records(scenarios, results):
+    recs = []
+    for h in scenarios:
+        r = results[h["sid"]]
+        for b in r["blocks"]:
+            if b["item"]["k"] == "entry":
+                f = dict(b["item"]["facts"])
+                f.setdefault("matched", [])
+                f.setdefault("candidate", [])
+                f.setdefault("is_match_rel", True)
+                for k in ("path", "root"):
+                    f[k] = f[k]["p"]
+                recs.append({"sid": h["sid"], "glob": h.get("glob") is not None, "rooted": bool(h.get("rooted")), "f": f})
+    return recs
+
+
+def check_C14(tier):
+    t0 = time.time()
+    rnd = random.Random(C.SEED)
+    v = C.Verdict("C14")
+    scenarios = W.glob_scenarios("thorough", 1, rnd)   # all spellings of the base
+    # depth and link behaviours on top, and plain path walks
+    extra = []
+    for h in rnd.sample(scenarios, 25 if tier == "quick" else 120):
+        for mn, mx in ((1, -1), (-1, 2), (1, 3)):
+            h2 = dict(h, min=mn, max=mx, desc=h["desc"] + " depth %s..%s" % (mn, mx))
+            extra.append(h2)
+    nodes, index = W.tree(W.TREES["links"])
+    for g in ("**", "a/**", "**/g", "*"):
+        for follow in (False, True):
+            extra.append({"nodes": nodes, "follow": follow, "min": -1, "max": -1, "glob": C.cps(g), "rooted": False, "walk_from": index["root"],
+                          "base": "abs", "layers": [], "tree": "links", "origin": "library", "desc": "glob %r over tree links (follow=%s)" % (g, follow)})
+    for tname in ("plain", "deep", "links"):
+        nodes, index = W.tree(W.TREES[tname])
+        for base in ("root", "root/a"):
+            for spelling in ("abs", "trailing", "dot"):
+                extra.append({"nodes": nodes, "follow": tname == "links", "min": -1, "max": -1, "rooted": False, "walk_from": index[base],
+                              "base": spelling, "layers": [], "tree": tname, "origin": "library", "desc": "path walk of %s in tree %s (%s)" % (base, tname, spelling)})
+    scenarios += extra
+    for i, h in enumerate(scenarios):
+        h["sid"] = i + 1
+        h["skip_trace"] = True      # traces of these shapes are validated by C02 / C15; here the entries are the subject
+    W.prepare_glob_scenarios(scenarios)
+    results = W.run_walks(scenarios, "c14")
+    recs = entry_records(scenarios, results)
+    d = C.cache_dir("obs", "%s-%s" % (C.repo_hash(), C.harness_hash()))
+    path = os.path.join(d, "entries-%s.ndjson" % tier)
+    L.write_ndjson(path, recs)
+    out, stats = C.tlc("EntryCheck.tla", "EntryCheck.cfg", env={"OBS": path}, timeout=3000)
+    if not stats["ok"]:
+        C.log(stats.get("tail", ""))
+        raise C.ToolError("TLC did not complete on EntryCheck")
+    by_sid = {h["sid"]: h for h in scenarios}
+    nd = 0
+    for r in C.tlc_records(out):
+        if r["t"] == "DISAGREE":
+            nd += 1
+            f = recs[r["rec"] - 1]["f"]
+            h = by_sid[r["sid"]]
+            r["sig"] = {"dotprefix": h.get("glob") is not None and not h.get("_plain_prefix", True)}
+            v.disagree(r, "%s: entry %r (root %r, relative %r, depth %d): %s" % (h["desc"], C.text(f["path"]), C.text(f["root_raw"]), C.text(f["rel"]), f["depth"], r["what"]))
+    if not recs:
+        raise C.ToolError("no entries recorded")
+    samples = [{"scenario": by_sid[x["sid"]]["desc"], "path": C.text(x["f"]["path"]), "root": C.text(x["f"]["root_raw"])[-30:], "relative": C.text(x["f"]["rel"]), "depth": x["f"]["depth"]}
+               for x in rnd.sample(recs, min(6, len(recs)))]
+    rc = v.finish()
+    C.write_evidence("C14", tier, "model_checking", {
+        "states": stats["distinct"], "transitions": stats["generated"],
+        "traces_validated_against_impl": len(recs),
+        "samples": samples,
+        "evaluations": len(recs), "distinct_nontrivial": len({(x["sid"], tuple(x["f"]["path"])) for x in recs if x["f"]["depth"] > 0}),
+        "rule": "records = every entry yielded by %d real walks: globs (unprefixed, prefixed, rooted at the absolute scratch path, ./.. prefixes) over three trees x bases inside the tree x base spelled absolute / with trailing separator / with a . component, with depth behaviours and both link behaviours, and plain path walks; the std::path facts are evaluated by the harness and validated by TLC (EntryCheck!Consistent); non-trivial = entries below the walk root" % len(scenarios),
+        "disagreements": nd, "known_findings_hit": sorted(v.findings), "exhaustive": False,
+    }, time.time() - t0, len(v.violations), ["TLC", "std::path (join, components, equality) is the oracle the statement names; evaluated in the harness"])
+    return rc
+
+
+CHECKS["C14"] = check_C14
+
+
+def reachable(h, with_faults=True):
+    """independent traversal: {text: dict(pos, kind)} for everything the link policy reaches from the walked
+    node; kind: dir | file | err-io | err-loop; unreadable directories are entered only if with_faults is False"""
+    byid = W.node_by_id(h)
+    ch = W.children_of(h)
+    out = collections.OrderedDict()
+
+    def real_path(nid):
+        parts = []
+        while nid:
+            parts.append(C.text(byid[nid]["name"]))
+            nid = byid[nid]["parent"]
+        return "/".join(reversed(parts))
+
+    def rec(pos, text):
+        nd = byid[pos[-1]]
+        kind = "file"
+        d = pos[-1]
+        if nd["kind"] == "link" and h["follow"]:
+            if nd["target"] == 0:
+                out[text] = {"pos": pos, "kind": "err-io"}
+                return
+            d = nd["target"]
+            if byid[d]["kind"] == "dir":
+                if any(W.resolve(h, p) == d for p in pos[:-1]):
+                    out[text] = {"pos": pos, "kind": "err-loop"}
+                    return
+                kind = "dir"
+        elif nd["kind"] == "dir":
+            kind = "dir"
+        out[text] = {"pos": pos, "kind": kind, "locked": kind == "dir" and not byid[d]["readable"]}
+        if kind == "dir" and (byid[d]["readable"] or not with_faults):
+            for c in ch[d]:
+                rec(pos + [c["id"]], text + "/" + C.text(c["name"]))
+    start = h.get("walk_from", 1)
+    rec([start], real_path(start))
+    return out
+
+
+def check_C15(tier):
+    t0 = time.time()
+    rnd = random.Random(C.SEED)
+    v = C.Verdict("C15")
+    n = 3 if tier == "quick" else 4
+    mc = [("links and depth bounds", W.model_check("links", W.mc_consts(n, 1, links=True, depths=True), ["NothingBeneathDiscarded", "CancelOnce", "CancelPopsOwnFrame", "DepthBounded", "NoDescentThroughLinks", "Final"]))]
+    # liveness: every behaviour terminates (checked without a state constraint, under weak fairness)
+    live = W.model_check("live", W.mc_consts(3, 1, links=True, depths=False), [], properties=["Terminates"], spec="MCSpec")
+    mc.append(("termination (liveness, weak fairness)", live))
+    for name, st in mc:
+        if not st["ok"]:
+            raise C.ToolError("the model itself violates a property (%s): %s" % (name, st.get("violation", st.get("tail", ""))[:1500]))
+    scenarios = []
+    bounds = [(-1, -1), (1, -1), (2, -1), (-1, 0), (-1, 1), (-1, 2), (1, 1), (1, 2), (2, 3), (3, 4), (2, 2), (4, -1), (-1, 4)]
+    if tier == "quick":
+        bounds = [(-1, -1), (1, -1), (-1, 0), (-1, 1), (1, 2), (2, 3), (3, -1), (-1, 2)]
+    for tname, globs in (("deep", [None, "**", "a/**", "a/b/**", "a/b/c/*", "**/g"]), ("links", [None, "**", "a/**", "**/g", "a/tob/*"])):
+        # (a glob whose literal prefix passes through a link starts its walk at the link: only with links read as targets)
+        nodes, index = W.tree(W.TREES[tname])
+        for g in globs:
+            for mn, mx in bounds:
+                for follow in ((False, True) if tname == "links" else (False,)):
+                    if g == "a/tob/*" and not follow:
+                        continue
+                    h = {"sid": len(scenarios) + 1, "nodes": nodes, "follow": follow, "min": mn, "max": mx, "rooted": False, "walk_from": index["root"],
+                         "base": "abs", "layers": [], "tree": tname, "origin": "library",
+                         "desc": "%s over tree %s, depth %s..%s, links read as %s" % ("path walk" if g is None else "glob %r" % g, tname, mn if mn > 0 else 0, mx if mx >= 0 else "inf", "targets" if follow else "files")}
+                    if g is not None:
+                        h["glob"] = C.cps(g)
+                    scenarios.append(h)
+    pivots = W.prepare_glob_scenarios(scenarios)
+    for h in scenarios:
+        if h.get("glob") is None:
+            h["_base_text"] = "root"
+        # a maximum below the length of the prefix excludes every reachable depth: nothing to validate as a trace
+        if h.get("glob") is not None and h["max"] >= 0 and h["max"] < pivots.get(h["sid"], 0):
+            h["skip_trace"] = True
+            h["_excluded"] = True
+    results, yielded, tstats, ntraces = W.run_and_validate("C15", scenarios, "c15", v, pivots=pivots)
+    def reach(h):
+        # the traversal starts where the walk starts: at the anchor (base joined with the glob's prefix)
+        return reachable(dict(h, walk_from=h.get("anchor", h["walk_from"])))
+    pairs = []
+    for h in scenarios:
+        if h.get("glob") is not None and not h.get("_excluded"):
+            for t in reach(h):
+                pairs.append(((C.text(h["glob"]),), W.rel_to(t, h["_base_text"])))
+    is_match = W.matches(pairs)
+    n_oracle = 0
+    for h in scenarios:
+        r = results[h["sid"]]
+        got, errors = [], []
+        for b in r["blocks"]:
+            k = b["item"]["k"]
+            if k == "entry":
+                got.append(os.path.normpath(C.text(b["item"]["facts"]["path"]["p"])))
+            elif k == "error":
+                errors.append((os.path.normpath(C.text(b["item"]["path"]["p"])) if b["item"].get("path") else None, b["item"]["text"]))
+            elif k in ("panic", "runaway"):
+                v.disagree({"t": "DISAGREE", "what": "walk_" + k, "sid": h["sid"], "scenario": h}, "%s: %s" % (h["desc"], b["item"]))
+        mn = h["min"] if h["min"] > 0 else 0
+        mx = h["max"] if h["max"] >= 0 else 10 ** 6
+        exp = []
+        exp_err = []
+        # entries beyond the maximum depth are never reached, so faults beyond it are not reported either
+        for t, info in ({} if h.get("_excluded") else reach(h)).items():
+            rel = W.rel_to(t, h["_base_text"])
+            depth = 0 if rel == "" else len(rel.split("/"))
+            # a position is only reached if all its ancestors are within the maximum
+            if depth > mx:
+                continue
+            if info["kind"].startswith("err"):
+                if h.get("glob") is None or True:
+                    exp_err.append(t)
+                continue
+            if depth < mn:
+                continue
+            if h.get("glob") is not None and (rel == "" or not is_match[((C.text(h["glob"]),), rel)]):
+                continue
+            exp.append(t)
+        n_oracle += 1
+        sig = {"max_below_prefix": bool(h.get("_excluded")), "follow": h["follow"]}
+        got_cmp = sorted(t for t in got if h.get("glob") is None or t != h["_base_text"])
+        exp_cmp = sorted(t for t in exp if h.get("glob") is None or t != h["_base_text"])
+        if h.get("_excluded"):
+            if got:
+                v.disagree({"t": "DISAGREE", "what": "entry_yielded_although_bounds_exclude_every_depth", "sid": h["sid"], "sig": sig, "scenario": h},
+                           "%s: the bounds exclude every reachable depth but %s was yielded" % (h["desc"], got))
+            continue
+        if got_cmp != exp_cmp:
+            v.disagree({"t": "DISAGREE", "what": "yielded_set_differs_from_bounded_traversal", "sid": h["sid"], "sig": sig, "scenario": h},
+                       "%s: missing %s, unexpected %s" % (h["desc"], sorted(set(exp_cmp) - set(got_cmp)), sorted(set(got_cmp) - set(exp_cmp))))
+        # errors: only below a pruned glob component they may be absent; for path walks exactly the faults
+        if h.get("glob") is None:
+            if sorted(e[0] for e in errors) != sorted(exp_err):
+                v.disagree({"t": "DISAGREE", "what": "error_items_differ", "sid": h["sid"], "sig": sig, "scenario": h},
+                           "%s: error items %s, expected one for each of %s" % (h["desc"], errors, exp_err))
+            for p, text in errors:
+                kind = reach(h).get(p, {}).get("kind")
+                if kind == "err-loop" and "cycle" not in text:
+                    v.disagree({"t": "DISAGREE", "what": "reentrant_link_not_reported_as_cycle", "sid": h["sid"], "sig": sig, "scenario": h}, "%s: %s: %s" % (h["desc"], p, text))
+        if not h["follow"]:
+            for t in got:
+                parts = t.split("/")
+                for i in range(1, len(parts)):
+                    anc = "/".join(parts[:i])
+                    info = reachable(dict(h, follow=False)).get(anc)
+                    if info and W.node_by_id(h)[info["pos"][-1]]["kind"] == "link":
+                        v.disagree({"t": "DISAGREE", "what": "descended_through_link_read_as_file", "sid": h["sid"], "sig": sig, "scenario": h}, "%s: %s" % (h["desc"], t))
+    samples = [{"scenario": h["desc"], "yielded": [os.path.normpath(C.text(b["item"]["facts"]["path"]["p"])) for b in results[h["sid"]]["blocks"] if b["item"]["k"] == "entry"][:8]}
+               for h in rnd.sample(scenarios, min(5, len(scenarios)))]
+    rc = v.finish()
+    C.write_evidence("C15", tier, "model_checking", {
+        "states": sum(st["distinct"] for _, st in mc) + tstats["distinct"], "transitions": sum(st["generated"] for _, st in mc) + tstats["generated"],
+        "traces_validated_against_impl": ntraces,
+        "samples": samples,
+        "evaluations": len(scenarios), "distinct_nontrivial": sum(1 for h in scenarios if h["min"] > 0 or h["max"] >= 0 or h["follow"]),
+        "rule": "model: every tree up to %d nodes with links to every target (dangling included), both link policies, depth bounds min 0..2 x max 0..2/none, all sibling orders: bounds respected, no descent through links read as files, termination as a liveness property under weak fairness; real: %d walks (path walks and globs with prefixes of length 0..3 over a deep tree and a tree with links to a file, to directories, dangling and re-entrant) x %d (min,max) pairs x both link behaviours: traces validated against Walk.tla (bounds translated by the pivot), yielded sets compared with an independent bounded traversal filtered by the real is_match; non-trivial = bounded or following links" % (n, len(scenarios), len(bounds)),
+        "oracle_comparisons": n_oracle, "known_findings_hit": sorted(v.findings), "exhaustive": True,
+    }, time.time() - t0, len(v.violations), WALK_TRUST)
+    return rc
+
+
+CHECKS["C15"] = check_C15
+
+
+def check_C20(tier):
+    t0 = time.time()
+    rnd = random.Random(C.SEED)
+    v = C.Verdict("C20")
+    n = 3 if tier == "quick" else 4
+    mc = [("links, unreadable directories, one layer", W.model_check("faults", W.mc_consts(n, 1, links=True, faults=True), ["NothingBeneathDiscarded", "CancelOnce", "CancelPopsOwnFrame", "Final"]))]
+    if tier == "thorough":
+        mc.append(("unreadable directories, two layers", W.model_check("faults2", W.mc_consts(4, 2, faults=True), ["NothingBeneathDiscarded", "CancelOnce", "CancelPopsOwnFrame", "Final"])))
+    for name, st in mc:
+        if not st["ok"]:
+            raise C.ToolError("the model itself violates a property (%s): %s" % (name, st.get("violation", st.get("tail", ""))[:1500]))
+    # scenarios: TLC-enumerated ones with faults, and a library
+    scenarios = []
+    count = 120 if tier == "quick" else 1500
+    faulty = lambda s: (not all(s["readable"])) or any(k == "link" for k in s["kind"])
+    for sc in sample_model_scenarios(tier, rnd, count, W.mc_consts(4, 1, links=True, faults=True), "n4l1lf", faulty):
+        scenarios.append(W.from_model(sc, len(scenarios) + 1))
+    specs = {
+        "faults": W.TREES["faults"],
+        "first": {"a": ("locked", {"x": None}), "b": {"f": None}, "c": None},
+        "last": {"a": {"f": None}, "z": ("locked", {"x": None})},
+        "nested": {"a": {"b": ("locked", {"c": {"d": None}}), "g": None}, "h": None},
+        "several": {"a": ("locked", {}), "b": ("locked", {"x": None}), "c": {"d": ("locked", {})}, "l1": ("link", None), "l2": ("link", None), "f": None},
+        "loops": {"a": {"up": ("link", "root"), "self": ("link", "root/a"), "f": None}, "b": {"toa": ("link", "root/a")}},
+    }
+    stacks = [[], [{"kind": "not", "patterns": [C.cps("**/f")], "mode": "text"}],
+              [{"kind": "filter", "verdicts": {"root/a": "file"}}, {"kind": "not", "patterns": [C.cps("**/z/**")], "mode": "text"}],
+              [{"kind": "filter", "verdicts": {"root/locked": "tree", "root/a": "tree"}}],
+              [{"kind": "not", "patterns": [C.cps("**/locked"), C.cps("**/b/**")], "mode": "compiled"}, {"kind": "filter", "verdicts": {"root/c": "file"}}]]
+    for tname, spec in specs.items():
+        nodes, index = W.tree(spec)
+        for follow in (False, True):
+            for st in stacks:
+                for g in (None, "**") if tier == "quick" else (None, "**", "*/*", "**/f"):
+                    h = {"sid": len(scenarios) + 1, "nodes": nodes, "follow": follow, "min": -1, "max": -1, "rooted": False, "walk_from": index["root"],
+                         "base": "abs", "layers": st, "tree": tname, "origin": "library",
+                         "desc": "%s over tree %s (links read as %s) with %d combinators" % ("path walk" if g is None else "glob %r" % g, tname, "targets" if follow else "files", len(st))}
+                    if g is not None:
+                        h["glob"] = C.cps(g)
+                    scenarios.append(h)
+    # the walked directory itself is unreadable
+    nodes, index = W.tree({"locked": ("locked", {"x": None})})
+    scenarios.append({"sid": len(scenarios) + 1, "nodes": nodes, "follow": False, "min": -1, "max": -1, "rooted": False, "walk_from": index["root/locked"],
+                      "base": "abs", "layers": [], "tree": "rootlocked", "origin": "library", "desc": "path walk of an unreadable directory"})
+    pivots = W.prepare_glob_scenarios(scenarios)
+    for h in scenarios:
+        if h.get("glob") is None:
+            h["_base_text"] = "/".join(C.text(W.node_by_id(h)[p]["name"]) for p in ancestors_of(h, h.get("walk_from", 1)))
+    results, yielded, tstats, ntraces = W.run_and_validate("C20", scenarios, "c20", v, as_nobody=True, pivots=pivots)
+    for h in scenarios:
+        if results[h["sid"]].get("euid") == 0:
+            raise C.ToolError("fault scenarios ran as root: permission faults are not real")
+    n_oracle = 0
+    for h in scenarios:
+        r = results[h["sid"]]
+        errors = []
+        for b in r["blocks"]:
+            if b["item"]["k"] == "error":
+                errors.append(os.path.normpath(C.text(b["item"]["path"]["p"])) if b["item"].get("path") else None)
+            elif b["item"]["k"] in ("panic", "runaway"):
+                v.disagree({"t": "DISAGREE", "what": "walk_" + b["item"]["k"], "sid": h["sid"], "scenario": h}, "%s: %s" % (h["desc"], b["item"]))
+        # expected faults: those in the part of the tree that no combinator discards as a tree and, for a glob
+        # walk, that the glob does not prune: taken from the validated trace (positions yielded as directories
+        # and not tree-discarded are read)
+        exp = []
+        read_dirs = set()
+        discarded = set()
+        for y in yielded.get(h["sid"], []):
+            if y["err"] == "none" and y["isdir"]:
+                if "tree" in y["verdicts"] or y["gout"] == "T":
+                    discarded.add(y["text"])
+                else:
+                    read_dirs.add(y["text"])
+        link_to_locked = any(nd["kind"] == "link" and nd["target"] and not W.node_by_id(h)[nd["target"]]["readable"] for nd in h["nodes"]) and h["follow"]
+        if None in errors:
+            v.disagree({"t": "DISAGREE", "what": "error_item_names_no_path", "sid": h["sid"], "sig": {"followed_link_to_unreadable_directory": link_to_locked}, "scenario": h},
+                       "%s: an error item has no path" % h.get("desc", "model scenario %s" % h["sid"]))
+            errors = [e for e in errors if e is not None]
+            unnamed = True
+        else:
+            unnamed = False
+        if h["origin"] == "model":
+            continue   # the model scenarios are judged by trace validation (Final: one error per fault, in place)
+        start_text = next(iter(reachable(h)))
+        for t, info in reachable(h).items():
+            parent = t.rsplit("/", 1)[0] if t != start_text else None
+            if parent is not None and parent not in read_dirs:
+                continue
+            if unnamed and info.get("locked") and W.node_by_id(h)[info["pos"][-1]]["kind"] == "link":
+                continue   # reported by the error item without a path
+            if info["kind"].startswith("err"):
+                exp.append(t)
+            elif info.get("locked") and t in read_dirs:
+                exp.append(t)
+        n_oracle += 1
+        if sorted(errors, key=str) != sorted(exp):
+            v.disagree({"t": "DISAGREE", "what": "error_items_differ_from_faults", "sid": h["sid"], "scenario": h},
+                       "%s: error items for %s, faults at %s" % (h["desc"], errors, exp))
+    samples = []
+    for h in rnd.sample([h for h in scenarios if h["origin"] == "library"], 4):
+        r = results[h["sid"]]
+        samples.append({"scenario": h["desc"], "items": [("error " + (os.path.normpath(C.text(b["item"]["path"]["p"])) if b["item"].get("path") else "?")) if b["item"]["k"] == "error" else os.path.normpath(C.text(b["item"]["facts"]["path"]["p"])) for b in r["blocks"] if b["item"]["k"] in ("entry", "error")][:12]})
+    rc = v.finish()
+    C.write_evidence("C20", tier, "fault_enumeration", {
+        "evaluations": len(scenarios), "distinct_nontrivial": sum(1 for h in scenarios if any(not nd["readable"] or nd["kind"] == "link" for nd in h["nodes"])),
+        "rule": "faults = unreadable directories (chmod 000, walks run as nobody through setpriv so that the fault is real), dangling links and links that re-enter an ancestor; placements: every combination on every tree up to %d nodes in the model (all sibling orders, one filter layer), %d of those scenarios (seeded sample) executed for real, plus a library: first / middle / last child, nested, several at once, the walked directory itself, x both link behaviours x 5 combinator stacks x path and glob walks; every trace validated against Walk.tla (one error item per fault, in place, bypassing the layers; the rest as in the fault-free walk); non-trivial = the tree has a fault" % (n, count),
+        "samples": samples,
+        "states": sum(st["distinct"] for _, st in mc) + tstats["distinct"], "transitions": sum(st["generated"] for _, st in mc) + tstats["generated"],
+        "traces_validated_against_impl": ntraces, "oracle_comparisons": n_oracle,
+        "known_findings_hit": sorted(v.findings),
+    }, time.time() - t0, len(v.violations), WALK_TRUST + ["permission faults are produced by chmod 000 and an unprivileged effective user (setpriv --reuid=65534)"])
+    return rc
+
+
+def ancestors_of(h, nid):
+    byid = W.node_by_id(h)
+    chain = []
+    while nid:
+        chain.append(nid)
+        nid = byid[nid]["parent"]
+    return list(reversed(chain))
+
+
+CHECKS["C20"] = check_C20
